@@ -96,6 +96,7 @@ def run(fx, chk, tier):
     chk.rule("R-COUNT", "the fragmented sample count accumulates trun.sample_count over every attached track fragment")
     chk.rule("R-OFFSET", "the recorded fragment offset is the position where the moof header starts")
     chk.rule("R-FOOT", "fragmented lookups read at least their movie-fragment fields")
+    chk.rule("R-INDEX", "the fragment index returned by find_traf_idx_and_sample_idx is a position in self.trafs whose run is present, and it is only applied to trafs / moof_offsets")
     cg = callgraph(fx)
     rh = fx.impl_fn("Mp4Reader<R>", None, "read_header")
     rf = fx.impl_fn("Mp4Reader<R>", None, "read_fragment_header")
@@ -180,6 +181,29 @@ def run(fx, chk, tier):
         rd = fields_read(fx, cg, fn["id"])
         missing = [x for x in need if x not in rd]
         chk.require(not missing, "R-FOOT", nm, "reads %s" % need, "%s does not consult %s" % (nm, missing), site_of(fn))
+    # ---------------- R-INDEX: the fragment index handed to every fragmented lookup is a position in self.trafs (the
+    # vector moof_offsets is pushed in lock step with), and the fragment at that position has a run
+    import lookup_post
+    r = lookup_post.check(fx, "find_traf_idx_and_sample_idx")
+    if chk.anchor("R-INDEX", "Mp4Track::find_traf_idx_and_sample_idx", r.get("fn")):
+        chk.require(r["ok"], "R-INDEX", "position", "returned fragment index is a position in self.trafs (%s)" % r["why"],
+                    "find_traf_idx_and_sample_idx returns a fragment index that is not a position in self.trafs (%s): trafs[idx], moof_offsets[idx] and the run it was found in no longer belong together" % r["why"], site_of(r["fn"]))
+        chk.require(bool(r["present"]), "R-INDEX", "run-present", "the run of trafs[idx] was tested to be present on every returning path",
+                    "a returned index can name a track fragment without a run (trun)", site_of(r["fn"]))
+        # every user of the index applies it to self.trafs / self.moof_offsets only
+        users = 0
+        for nm in ("sample_offset", "sample_size", "sample_time", "sample_rendering_offset"):
+            fn = fx.impl_fn("Mp4Track", None, nm)
+            b = body_of(fn) if fn else None
+            if b is None:
+                continue
+            for blk, t in b.calls():
+                if (t["callee"].get("path") or "").endswith("Index::index") and len(t["args"]) == 2 and b.op_str(t["args"][1]) == "traf_idx":
+                    users += 1
+                    base = b.op_str(t["args"][0])
+                    chk.require(base in ("self.trafs", "self.moof_offsets"), "R-INDEX", "%s|use|%s" % (nm, base), "index applied to %s" % base,
+                                "%s applies the fragment index to %s" % (nm, base), site_of(fn, t.get("line")))
+        chk.floor("R-INDEX", "uses of the fragment index", users, 5)
     return chk.finish(
         "other",
         "Sibling agreement of the two attach implementations (normalised HIR equality), the count accumulation, the recorded-offset source and lower-bound field footprints are decided. "
